@@ -364,6 +364,9 @@ func TestTransport(t *testing.T) {
 		if a.err != nil {
 			t.Fatalf("harness: %v", a.err)
 		}
+		if !evaluate(t, c, a.j.stream, a.r) {
+			return
+		}
 		switch a.r.Outcome {
 		case "unserved":
 			// the Transport could not route this request with the handler's cluster
